@@ -306,6 +306,7 @@ impl Check {
                     "property": self.id,
                     "part": self.part,
                     "tier": self.tier.name(),
+                    "seed": self.seed,
                     "rule": v.rule,
                     "signature": sig,
                     "occurrences": count,
